@@ -25,13 +25,23 @@ Qed.
 
 (* ---------- facts about a well-formed table ---------- *)
 
+Lemma subtree_ok_S t d idx :
+  subtree_ok t (S d) idx =
+  if idx <? NUM_SYMBOLS then 0 <=? idx else
+  match lookup t idx with
+  | Some nd => subtree_ok t d (fst nd) && subtree_ok t d (snd nd)
+  | None => false
+  end.
+Proof. reflexivity. Qed.
+
 Lemma wf_root t : wf_table t = true ->
   exists rootnd, lookup t ROOT_IDX = Some rootnd /\ get_node t ROOT_IDX = Ok (inl rootnd)
                  /\ subtree_ok t 24 ROOT_IDX = true.
 Proof.
   intros Hwf. unfold wf_table in Hwf. apply andb_prop in Hwf as [Hwf _].
   apply andb_prop in Hwf as [_ Hsub]. pose proof Hsub as Hs.
-  cbn [subtree_ok] in Hs. change (ROOT_IDX <? NUM_SYMBOLS) with false in Hs. cbv iota in Hs.
+  change 24%nat with (S 23) in Hs. rewrite subtree_ok_S in Hs.
+  change (ROOT_IDX <? NUM_SYMBOLS) with false in Hs. cbv iota in Hs.
   destruct (lookup t ROOT_IDX) as [nd|] eqn:Hl; [|discriminate].
   exists nd. unfold get_node. rewrite Hl. change (NUM_SYMBOLS <=? ROOT_IDX) with true. auto.
 Qed.
@@ -185,7 +195,7 @@ Lemma dec_bits_total t rootnd : wf_table t = true -> vnode t 24 rootnd ->
   end.
 Proof.
   intros Hwf Hroot. induction bs as [|bit bs IH]; intros nd d out room Hv.
-  - cbn [dec_bits length]. exists d. repeat split; [exact Hv|lia|lia].
+  - cbn [dec_bits length]. exists d. split; [exact Hv|split; lia].
   - cbn [dec_bits]. destruct (vnode_child t d nd bit Hwf Hv) as (d' & -> & [[Hc [sr Hg]]|[nd' [Hg Hv']]]).
     + rewrite Hg. set (c := if bit then snd nd else fst nd) in *.
       destruct (Z.eqb_spec c EOF); [lia|].
@@ -193,11 +203,11 @@ Proof.
       destruct room as [|r]; [exact I|].
       specialize (IH rootnd 24%nat (c :: out) r Hroot).
       destruct (dec_bits t rootnd bs rootnd (c :: out) r) as [nd'' o'' r''|o''| |p]; try exact IH.
-      * destruct IH as (d'' & Hv'' & Hm & Hlen). exists d''. cbn [length] in *. repeat split; [exact Hv''|lia|lia].
+      * destruct IH as (d'' & Hv'' & Hm & Hlen). exists d''. cbn [length] in *. split; [exact Hv''|split; lia].
       * cbn [length] in IH. lia.
     + rewrite Hg. specialize (IH nd' d' out room Hv').
       destruct (dec_bits t rootnd bs nd' out room) as [nd'' o'' r''|o''| |p]; try exact IH.
-      destruct IH as (d'' & Hv'' & Hm & Hlen). exists d''. cbn [length]. repeat split; [exact Hv''|lia|lia].
+      destruct IH as (d'' & Hv'' & Hm & Hlen). exists d''. cbn [length]. split; [exact Hv''|split; lia].
 Qed.
 
 Definition dec_result_ok (cap : nat) (r : res dec_err bytes) : Prop :=
@@ -252,4 +262,20 @@ Proof.
   destruct (dec_loop_total t rootnd Hwf Hroot (dec_fuel y cap) y rootnd 24%nat [] cap Hroot) as [Hok Hmono].
   { unfold dec_fuel. lia. }
   split; [exact Hok|exact Hmono].
+Qed.
+
+(* compress_into_vec then decompress_into_vec: the fixed capacities always suffice *)
+Theorem vec_roundtrip t x : wf_table t = true -> bytes_ok x = true ->
+  exists c, compress_into_vec t x = Ok c /\ decompress_into_vec t c = Ok x.
+Proof.
+  intros Hwf Hx. destruct (compress_into_vec_spec t x Hwf Hx) as (c & Hv & Hc).
+  exists c. split; [exact Hv|]. unfold decompress_into_vec.
+  destruct (compress_spec t x false Hwf Hx) as (out & Hlen & _ & _ & Hcomp).
+  specialize (Hc (length c) (le_n _)). pose proof Hc as Hc'. rewrite Hcomp in Hc'.
+  destruct (length out <=? length c)%nat; [|discriminate]. injection Hc' as ->.
+  pose proof (bit_len_bounds t x Hwf Hx) as Hb. rewrite bytes_needed_false in Hlen.
+  assert (Hcap : (length x <= length c * 8)%nat) by (Z.div_mod_to_equations; lia).
+  pose proof (roundtrip t x false (length c) c [] (length c * 8) (dec_fuel c (length c * 8))
+                        Hwf Hx Hc Hcap ltac:(unfold dec_fuel; lia)) as H.
+  rewrite app_nil_r in H. rewrite H. reflexivity.
 Qed.
